@@ -7,6 +7,8 @@ package cluster
 // actor for every message except Started (so zeroconf is never started), with the real context/sender.
 
 import (
+	"unsafe"
+	"reflect"
 	"fmt"
 	"sort"
 	"strconv"
@@ -378,6 +380,18 @@ func runProviderHistory(t testing.TB, ops []string) string {
 	return strings.Join(out, ";")
 }
 
+// vMakeNilMaps gives every nil map field of *v a fresh map (the harness replaces the Started handler, which is where
+// such state is created; a provider that grows a new map there must not crash under the harness for that reason alone).
+func vMakeNilMaps(v any) {
+	rv := reflect.ValueOf(v).Elem()
+	for i := 0; i < rv.NumField(); i++ {
+		f := rv.Field(i)
+		if f.Kind() == reflect.Map && f.IsNil() {
+			reflect.NewAt(f.Type(), unsafe.Pointer(f.UnsafeAddr())).Elem().Set(reflect.MakeMap(f.Type()))
+		}
+	}
+}
+
 type vMarker struct{}
 
 // vFlush is a synchronous subscriber of the event stream: Send runs on the event stream actor's goroutine.
@@ -415,6 +429,7 @@ func (w vWrap) Receive(c *actor.Context) {
 	case actor.Initialized, actor.Stopped:
 	case actor.Started:
 		w.s.pid = c.PID()
+		vMakeNilMaps(w.s) // whatever map-typed state the real Started handler would have created
 		w.s.members.Add(w.c.Member())
 		w.s.sendMembersToAgent()
 		// as SelfManaged.start does: the child that turns RemoteUnreachableEvent into memberLeave
